@@ -229,38 +229,36 @@ def enc_wrapper(w):
     return [list(w.column_lengths), [[S(x) for x in r] for r in w.wrapped_rows], int(w.has_word_wraps()), int(w.has_word_cuts())]
 
 
-TAG_WRAP = [False]
+TAG_WRAP = []
 
 
 def watch_wrapping():
-    """note when CellWrapper._wrap_column reaches a cell holding '<' (get_max_word_length or textwrap.wrap is handed one)"""
+    """note the cells holding '<' that CellWrapper._wrap_column hands to textwrap.wrap (the cells that are wrapped)"""
     from clikit.ui.components import cell_wrapper as cw
     if getattr(cw, "_verif_watch", False):
         return
     import textwrap as tw
-    real_gmw = cw.get_max_word_length
-
-    def gmw(string, formatter=None):
-        if "<" in string:
-            TAG_WRAP[0] = True
-        return real_gmw(string, formatter)
 
     class TW(object):
         @staticmethod
         def wrap(text, width, **kw):
             if "<" in text:
-                TAG_WRAP[0] = True
+                TAG_WRAP.append(text)
             return tw.wrap(text, width, **kw)
 
-    cw.get_max_word_length = gmw
     cw.textwrap = TW
     cw._verif_watch = True
+
+
+def stack_depth(io):
+    """how many styles the output's formatter has open (pastel's style stack; read only)"""
+    return len(io.output.formatter._formatter._style_stack.styles)
 
 
 def run_impl(c):
     from clikit.formatter import AnsiFormatter, PlainFormatter
     watch_wrapping()
-    TAG_WRAP[0] = False
+    del TAG_WRAP[:]
     if c["k"] == 1:
         from clikit.ui.components import CellWrapper
         w = CellWrapper()
@@ -291,12 +289,16 @@ def run_impl(c):
         lines_per_row = [max(len(x.split("\n")) for x in r) if r else 0 for r in w.wrapped_rows]
     except Exception as e:  # noqa
         wr, lines_per_row = None, None
+    depth0 = stack_depth(io)
+    msg = ""
     try:
         t.render(io, c["ind"])
         page = [0, S(io.fetch_output())]
     except Exception as e:  # noqa
         page = err(e)
-    tag_wrap = int(TAG_WRAP[0])
+        msg = "%s: %s" % (type(e).__name__, e)
+    wrapped_lt = sorted(set(TAG_WRAP))
+    left_open = int(stack_depth(io) != depth0)
     after = (t._rows, t._header_row, t._nb_columns, list(st.column_alignments))
     # twice: the same text again
     same = 1
@@ -307,27 +309,18 @@ def run_impl(c):
             same = int(io.fetch_output() == first + first)
         except Exception:  # noqa
             same = 0
-    return [wr, page, int(before == after), same, lines_per_row, tag_wrap]
-
-
-OUTSIDE = [-20]
+    return [wr, page, int(before == after), same, lines_per_row, [S(x) for x in wrapped_lt], left_open, S(msg[:200])]
 
 
 def canon_impl(c, o):
     if c["k"] == 1:
         return o
     wr, page = o[0], o[1]
-    if o[5]:
-        return OUTSIDE                 # a cell holding '<' reached textwrap: the recorded finding's territory
     if page[0] != 0:
         return page
-    return [0, wr + [page[1], 1]]      # 1: the model found the style well-formed (wf_styleb, hypothesis of table_rect)
-
-
-def canon_model(c, m):
-    if m == [-1, 120]:                 # Err (Other 20): a cell holding '<' would have to be wrapped
-        return OUTSIDE
-    return m
+    # 1: the model found the style well-formed (wf_styleb, hypothesis of table_rect); a cell holding '<' was wrapped (the model:
+    # its tagged layer answered Err (Other 20) and the layer that wraps raw text spoke); the second render gave the same text
+    return [0, wr + [page[1], 1, int(bool(o[5])), o[3]]]
 
 
 def geometry(c):
@@ -345,28 +338,39 @@ def plain(s):
 
 
 ESCAPED = re.compile(r"\\<")
+KNOWN = "tagged-cell-wrapped:"
+_MARKUP = []
+
+
+def has_markup(cell):
+    """the cell holds something the formatter acts on: an escaped '<', a tag of the style set, '</>' or an inline style -
+    decided without the implementation, from the style names read for the model"""
+    if not _MARKUP:
+        names = "|".join(re.escape(unS(x[0][0])) for x in style_set() if x[0])
+        _MARKUP.append(re.compile(r"(?i)\\<|</?(?:%s)>|</>|<(?:fg|bg|options)=[a-z0-9,_=;-]*>" % names))
+    return bool(_MARKUP[0].search(cell))
 
 
 def oracle(c, o):
     if c["k"] == 3:
-        return None                       # unbalanced / invalid markup: the property is about well-formed cells
-    r = oracle0(c, o)
-    if r is not None and c["k"] == 2 and o[5]:
-        return "tagged-cell-wrapped"
-    if r is not None and c["k"] == 2 and any(ESCAPED.search(x) for row in [c["header"] or []] + c["rows"] for x in row):
+        # unbalanced / invalid markup: the property is about well-formed cells - but no table is modified by rendering it
+        return None if o[2] else "table-modified-by-render"
+    info = {}
+    r = oracle0(c, o, info)
+    if r is None or c["k"] != 2:
+        return r
+    # The recorded finding: a cell holding markup is wrapped by its raw text.  Only when such a cell was wrapped in this very
+    # render, and only for the clause that failed (the entry in known_findings.json lists the clauses that are that defect).
+    wrapped_markup = [unS(x) for x in o[5] if has_markup(unS(x))]
+    # (a cell whose text comes back changed must itself hold markup: a tag-free cell that is garbled is never excused)
+    if wrapped_markup and not (r == "cell-text-changed" and not has_markup(info["cell"])):
+        return KNOWN + r
+    if any(ESCAPED.search(x) for row in [c["header"] or []] + c["rows"] for x in row):
         return "escaped-tag-formatted-twice"      # repaired by 4a70d2d: a regression shows up under this class
     return r
 
 
-def tagged_and_wrapped(c):
-    """a table with a style-tagged cell that does not fit at its natural width (so that cells are wrapped by raw length)"""
-    st, b, exc, avail = geometry(c)
-    rows = ([c["header"]] if c["header"] is not None else []) + c["rows"]
-    nat = [max(len(plain(r[j]).rstrip()) for r in rows) for j in range(c["n"])]
-    return sum(nat) > avail and any("<" in x for r in rows for x in r)
-
-
-def oracle0(c, o):
+def oracle0(c, o, info=None):
     if c["k"] == 1:
         if o[0] != 0:
             return "fit-raised" if c["max"] >= c["n"] >= 1 else None
@@ -392,11 +396,13 @@ def oracle0(c, o):
         return None                       # outside the guard: at least one character per column
     wr, page, unchanged, same, lpr = o[:5]
     if page[0] != 0:
-        return "render-raised"
+        return "render-raised" + ("-nested-style-tag" if unS(o[7]).startswith("ValueError: Incorrectly nested style tag found") else "")
     if not unchanged:
         return "table-modified-by-render"
     if not same:
-        return "second-render-differs"
+        # the first render left a style open on the output's formatter (a tag cut off from its partner): what is written next
+        # starts in that style; told apart from a second render that differs although the formatter was left as it was
+        return "style-left-open" if o[6] else "second-render-differs"
     text = unS(page[1])
     if c["ansi"] != 1 and "\x1b" in text:
         return "plain-output-has-escape"
@@ -446,6 +452,8 @@ def oracle0(c, o):
         for j in range(n):
             want = "".join(plain(rows_txt[ri][j]).split())
             if "".join(got[j].split()) != want:
+                if info is not None:
+                    info["cell"] = rows_txt[ri][j]
                 return "cell-text-changed"
         if has_header and ri == 0:
             idx += mid
